@@ -144,19 +144,19 @@ func (e *seqEnv) do(a seqAction) {
 	case 3:
 		switch a.msg {
 		case saOpen:
-			a.c.send(openMessageType, e.openBody())
+			a.c.send(verifMsgOpen, e.openBody())
 		case saKeepalive:
-			a.c.send(keepAliveMessageType, nil)
+			a.c.send(verifMsgKeepalive, nil)
 		case saUpdate:
-			a.c.send(updateMessageType, []byte{0, 0, 0, 0})
+			a.c.send(verifMsgUpdate, []byte{0, 0, 0, 0})
 		case saCease:
-			a.c.send(notificationMessageType, []byte{NOTIF_CODE_CEASE, 0})
+			a.c.send(verifMsgNotification, []byte{NOTIF_CODE_CEASE, 0})
 		case saBadOpen:
 			b := e.openBody()
 			b[0] = 3 // unsupported version
-			a.c.send(openMessageType, b)
+			a.c.send(verifMsgOpen, b)
 		case saBadMarker:
-			bad := mkFrame(keepAliveMessageType, nil)
+			bad := mkFrame(verifMsgKeepalive, nil)
 			bad[5] = 0
 			a.c.chunks = append(a.c.chunks, bad)
 			a.c.deliver(len(a.c.chunks), false)
@@ -178,7 +178,7 @@ func (e *seqEnv) monitors() {
 			verifAssert("no-fsm-means-disabled", p.fsmState[i] == disabledState)
 		}
 		if p.fsmState[i] == establishedState {
-			verifAssert("established-excludes-the-other-fsm", p.fsms[other(i)] == nil)
+			verifAssert("established-excludes-the-other-fsm", p.fsms[verifOtherDir(i)] == nil)
 		}
 	}
 	verifAssert("not-both-openconfirm", !(p.fsmState[0] == openConfirmState && p.fsmState[1] == openConfirmState))
@@ -215,6 +215,7 @@ func seqRunM(K int, light, minimal bool) {
 	verifEngineOnly()
 	e := &seqEnv{penv: newPenv(false), decide: make(chan dialOutcome), minimal: minimal}
 	verifSeqEnv = e
+	verifDialOverride = e.dialHook
 	e.dial.outcomes = nil
 	e.dial.mk = nil
 	e.p.options.idleHoldTime = 5 * time.Second
